@@ -1238,6 +1238,8 @@ BUILTINS = {
     "numpy.zeros_like": np_zeros_like,
     "numpy.full": np_full,
     "re.compile": lambda ex, pattern, *a: RegexV(pattern),
+    "collections.defaultdict": lambda ex, factory=None: _defaultdict(ex, factory),
+    "numpy.argsort": lambda ex, v, **kw: np_argsort(ex, v),
     "open": lambda ex, *a, **k: b_open(ex, *a, **k),
     "pathlib.Path": lambda ex, *a, **k: make_path(ex, *a, **k),
 }
@@ -1771,6 +1773,39 @@ def regex_method(ex, rx: RegexV, name, args, kw):
 
 
 # ----------------------------------------------------------------------------- objects of library classes
+
+
+def _defaultdict(ex, factory):
+    m = MapV(items=[])
+    m.default_factory = factory
+    used("collections.defaultdict: missing keys are created by the factory on lookup")
+    return m
+
+
+def np_argsort(ex, v):
+    """numpy.argsort of a short sequence: the index permutation that sorts it (ties keep their order for n <= 2;
+    for longer inputs stability is not assumed: equal keys are explored in both orders)"""
+    if isinstance(v, Arr0V):
+        return SeqV.of("array", [0])
+    items = ops.iter_concrete(ex, v)
+    n = len(items)
+    if n > 4:
+        raise Unsupported("argsort of more than 4 elements")
+    used("numpy.argsort: a permutation p with x[p[i]] <= x[p[i+1]]")
+    order = list(range(n))
+    # insertion sort, branching on the comparisons (each path gets a concrete permutation)
+    for i in range(1, n):
+        j = i
+        while j > 0:
+            a, b = items[order[j - 1]], items[order[j]]
+            c = ops.compare(ex, ">", a, b)
+            gt = c if isinstance(c, bool) else ex.p.branch(unwrap_bool(c), "argsort")
+            if gt:
+                order[j - 1], order[j] = order[j], order[j - 1]
+                j -= 1
+            else:
+                break
+    return SeqV.of("array", order)
 
 
 class SuperV:
